@@ -266,11 +266,17 @@ func xmlExpand(raw string, ents map[string]string, attr bool) (string, error) {
 				if err != nil {
 					return "", err
 				}
+				if !xmlLegalChar(v) {
+					return "", fmt.Errorf("character reference to an illegal character &#x%x;", v)
+				}
 				sb.WriteRune(rune(v))
 			} else if strings.HasPrefix(ref, "#") {
 				v, err := strconv.ParseUint(ref[1:], 10, 32)
 				if err != nil {
 					return "", err
+				}
+				if !xmlLegalChar(v) {
+					return "", fmt.Errorf("character reference to an illegal character &#%d;", v)
 				}
 				sb.WriteRune(rune(v))
 			} else if v, ok := xmlPredef[ref]; ok {
@@ -300,6 +306,11 @@ func xmlExpand(raw string, ents map[string]string, attr bool) (string, error) {
 		sb.WriteByte(c)
 	}
 	return sb.String(), nil
+}
+
+// xmlLegalChar: production Char of XML 1.0.
+func xmlLegalChar(v uint64) bool {
+	return v == 0x9 || v == 0xA || v == 0xD || v >= 0x20 && v <= 0xD7FF || v >= 0xE000 && v <= 0xFFFD || v >= 0x10000 && v <= 0x10FFFF
 }
 
 // collapseWS collapses whitespace runs to one space and trims.
